@@ -254,6 +254,54 @@ def node_map(ctx):
     return out
 
 
+def _format_parts(e):
+    """[('lit', text) | ('expr', source)] of a string built by %-formatting, an f-string, str.format or +; None if unknown"""
+    def unstr(x):
+        if isinstance(x, ast.Call) and norm(x.func) == 'str' and len(x.args) == 1:
+            return x.args[0]
+        return x
+    if isinstance(e, ast.JoinedStr):
+        out = []
+        for v in e.values:
+            if isinstance(v, ast.Constant):
+                out.append(('lit', v.value))
+            elif isinstance(v, ast.FormattedValue) and v.format_spec is None and v.conversion in (-1, 115):
+                out.append(('expr', norm(unstr(v.value))))
+            else:
+                return None
+        return out
+    if isinstance(e, ast.BinOp) and isinstance(e.op, ast.Mod) and isinstance(e.left, ast.Constant) and isinstance(e.left.value, str):
+        args = e.right.elts if isinstance(e.right, ast.Tuple) else [e.right]
+        parts = e.left.value.split('%s')
+        if len(parts) != len(args) + 1 or '%' in ''.join(parts):
+            return None
+        out = []
+        for i, p in enumerate(parts):
+            if p:
+                out.append(('lit', p))
+            if i < len(args):
+                out.append(('expr', norm(unstr(args[i]))))
+        return out
+    if isinstance(e, ast.BinOp) and isinstance(e.op, ast.Add):
+        l, r = _format_parts(e.left), _format_parts(e.right)
+        return l + r if l is not None and r is not None else None
+    if isinstance(e, ast.Call) and isinstance(e.func, ast.Attribute) and e.func.attr == 'format' \
+            and isinstance(e.func.value, ast.Constant) and isinstance(e.func.value.value, str) and not e.keywords:
+        parts = e.func.value.value.split('{}')
+        if len(parts) != len(e.args) + 1 or '{' in ''.join(parts):
+            return None
+        out = []
+        for i, p in enumerate(parts):
+            if p:
+                out.append(('lit', p))
+            if i < len(e.args):
+                out.append(('expr', norm(unstr(e.args[i]))))
+        return out
+    if isinstance(e, ast.Constant) and isinstance(e.value, str):
+        return [('lit', e.value)]
+    return [('expr', norm(unstr(e)))]
+
+
 def class_type(cls):
     """Static ``type`` of a tree class: ('const', str) | ('keyword_stmt',) | None."""
     from ..model import Cls, Func
@@ -261,6 +309,10 @@ def class_type(cls):
     if isinstance(v, ast.Constant) and isinstance(v.value, str):
         return ('const', v.value)
     if isinstance(v, Func):
+        for r in walk_own(v.node):
+            if isinstance(r, ast.Return) and r.value is not None:
+                if _format_parts(r.value) == [('expr', 'self.keyword'), ('lit', '_stmt')]:
+                    return ('keyword_stmt',)
         src = norm(v.node)
         if "'%s_stmt' % self.keyword" in src:
             return ('keyword_stmt',)
